@@ -282,6 +282,12 @@ pub struct NameSpec {
     pub globals: Vec<(u32, String)>,
     pub elems: Vec<(u32, String)>,
     pub datas: Vec<(u32, String)>,
+    /// subsection 10 (field names of GC types; walrus ignores it)
+    pub fields: Vec<(u32, Vec<(u32, String)>)>,
+    /// subsection 11 (tag names; walrus ignores it)
+    pub tags: Vec<(u32, String)>,
+    /// a subsection with an id no proposal defines, raw payload
+    pub unknown: Option<(u8, Vec<u8>)>,
 }
 
 #[derive(Clone, Debug, Default, PartialEq)]
@@ -420,6 +426,19 @@ impl NameSpec {
                 name_map(&mut b, m);
                 sub(id, b, &mut out);
             }
+        }
+        if !self.fields.is_empty() {
+            let mut b = Vec::new();
+            indirect_name_map(&mut b, &self.fields);
+            sub(10, b, &mut out);
+        }
+        if !self.tags.is_empty() {
+            let mut b = Vec::new();
+            name_map(&mut b, &self.tags);
+            sub(11, b, &mut out);
+        }
+        if let Some((id, body)) = &self.unknown {
+            sub(*id, body.clone(), &mut out);
         }
         out
     }
